@@ -49,6 +49,18 @@ Definition right_text (f : frame) : str :=
 Fixpoint rp_text (path : list frame) : str :=
   match path with [] => [] | f :: r => rp_text r ++ right_text f end.
 
+Definition frame_tr (f : frame) : str :=
+  match f with FGrp _ _ tr _ | FMath _ _ _ tr _ | FMac _ _ _ _ _ tr _ _ => tr end.
+Definition closer_text (f : frame) : str :=
+  match f with FMath _ _ k _ _ => m_close k | _ => [125%N] end.
+Definition after_text (f : frame) : str :=
+  match f with
+  | FGrp _ _ _ a | FMath _ _ _ _ a => unparse_items a
+  | FMac _ _ _ _ _ _ a2 a => unparse_items a2 ++ unparse_items a
+  end.
+Lemma right_text_split f : right_text f = frame_tr f ++ closer_text f ++ after_text f.
+Proof. destruct f; reflexivity. Qed.
+
 Definition lefts (path : list frame) : list lframe := map left_of path.
 
 Lemma unparse_items_cons i l : unparse_items (i :: l) = unparse_item i ++ unparse_items l.
@@ -113,29 +125,32 @@ Definition is_dollar (f : frame) : bool := match f with FMath _ _ MDollar _ _ =>
 Lemma ok_plug_frame cx ps f body fh : ok_items cx ps (plug_frame f body) fh = true ->
   (forall nxt, (is_dollar f = true -> not_dollar nxt) -> ok_lframe cx ps (left_of f) nxt = true)
   /\ (is_dollar f = true -> unparse_items body <> [] -> not_dollar (hd_error (unparse_items body)))
-  /\ exists fh', ok_items cx (lf_state cx ps (left_of f)) body fh' = true.
+  /\ ok_items cx (lf_state cx ps (left_of f)) body (hd_error (frame_tr f ++ closer_text f)) = true
+  /\ ws_ok (frame_tr f) = true.
 Proof.
-  destruct f as [b ws tr a|b ws k tr a|b ws name post a1 tr a2 a]; cbn [plug_frame left_of]; intros H;
+  destruct f as [b ws tr a|b ws k tr a|b ws name post a1 tr a2 a]; cbn [plug_frame left_of frame_tr closer_text]; intros H;
     rewrite ok_items_app in H; apply andb_true_iff in H; destruct H as [HB HX];
     rewrite ok_items_cons in HX; apply andb_true_iff in HX; destruct HX as [HX _];
     rewrite unparse_items_cons in HB; cbn [unparse_item] in HB.
   - rewrite ok_item_grp in HX. apply andb_true_iff in HX. destruct HX as [HX OKB].
-    apply andb_true_iff in HX. destruct HX as [W _]. split; [|split].
+    apply andb_true_iff in HX. destruct HX as [W Wt]. split; [|split; [|split]].
     + intros nxt _. cbn [ok_lframe]. rewrite W, andb_true_r.
       rewrite <- HB. f_equal. destruct ws; reflexivity.
     + discriminate.
-    + eexists. exact OKB.
+    + exact OKB.
+    + exact Wt.
   - rewrite ok_item_math in HX. apply andb_true_iff in HX. destruct HX as [HX DL].
     apply andb_true_iff in HX. destruct HX as [HX OKB].
-    apply andb_true_iff in HX. destruct HX as [HX _].
-    apply andb_true_iff in HX. destruct HX as [M W]. split; [|split].
+    apply andb_true_iff in HX. destruct HX as [HX Wt].
+    apply andb_true_iff in HX. destruct HX as [M W]. split; [|split; [|split]].
     + intros nxt D1. cbn [ok_lframe]. rewrite W, M. rewrite andb_true_r. apply andb_true_iff. split.
       * rewrite andb_true_r. rewrite <- HB. f_equal. destruct ws; [|reflexivity]. cbn [app]. destruct k; reflexivity.
       * destruct k; try reflexivity. rewrite (D1 eq_refl). reflexivity.
     + cbn [is_dollar]. destruct k; try discriminate. intros _ NE.
       destruct (unparse_items body) as [|c r]; [congruence|]. cbn [app] in DL. cbn [hd_error].
       unfold not_dollar. cbn [otest]. apply negb_true_iff in DL. exact DL.
-    + eexists. exact OKB.
+    + exact OKB.
+    + exact Wt.
   - destruct (get_macro_spec cx name) as [sp|] eqn:GS;
       [|cbn [ok_item] in HX; rewrite GS, andb_false_r in HX; discriminate].
     destruct (sp_args sp) as [l|lk] eqn:SA;
@@ -147,15 +162,17 @@ Proof.
     apply andb_true_iff in HX. destruct HX as [W Wp].
     destruct (ok_args_split cx ps a1 _ a2 l OKA) as (spc & NTH & OKA1 & KD & OKG).
     assert (MH : mac_hole cx name (length a1) = Some (sp, l, spc)) by (unfold mac_hole; rewrite GS, SA, NTH; reflexivity).
-    split; [|split].
+    rewrite ok_item_grp in OKG. apply andb_true_iff in OKG. destruct OKG as [OKG1 OKG].
+    apply andb_true_iff in OKG1. destruct OKG1 as [_ Wt].
+    split; [|split; [|split]].
     + intros nxt _. cbn [ok_lframe]. rewrite MH, W, Wp, NM, OKA1, KD, !andb_true_r. cbn [andb].
       apply andb_true_iff. split.
       * rewrite <- HB. f_equal. destruct ws; reflexivity.
       * destruct (ok_args_hd cx ps _ l OKA ltac:(destruct a1; discriminate)) as [r E].
         rewrite E in FO. exact FO.
     + discriminate.
-    + cbn [lf_state]. rewrite MH. rewrite ok_item_grp in OKG. apply andb_true_iff in OKG. destruct OKG as [_ OKG].
-      eexists. exact OKG.
+    + cbn [lf_state]. rewrite MH. exact OKG.
+    + exact Wt.
 Qed.
 
 Lemma lp_text_hd f r (x : str) : hd_error (lp_text (f :: r) ++ x) = hd_error (lp_text (f :: r)).
@@ -184,7 +201,7 @@ Lemma ok_plug cx path : forall ps body fh, ok_items cx ps (plug path body) fh = 
 Proof.
   induction path as [|f r IH]; intros ps body fh H.
   - split; [reflexivity|]. split; [discriminate|]. exists fh. exact H.
-  - cbn [plug] in H. destruct (ok_plug_frame cx ps f (plug r body) fh H) as (OKF & DL & fh' & OKB).
+  - cbn [plug] in H. destruct (ok_plug_frame cx ps f (plug r body) fh H) as (OKF & DL & OKB & _).
     destruct (IH _ _ _ OKB) as (OKR & DLR & fh2 & OKH). split; [|split].
     + intros nxt ND. cbn [lefts map ok_lpath]. apply andb_true_iff. split.
       * apply OKF. intros ID. destruct r as [|f1 r1].
@@ -200,4 +217,23 @@ Proof.
       * cbn [last_dollar plug] in *. exact DL.
       * intros LD. apply DLR. exact LD.
     + exists fh2. exact OKH.
+Qed.
+
+Lemma plug_app a b body : plug (a ++ b) body = plug a (plug b body).
+Proof. induction a as [|f r IH]; [reflexivity|]. cbn [app plug]. rewrite IH. reflexivity. Qed.
+Lemma lefts_app a b : lefts (a ++ b) = lefts a ++ lefts b. Proof. apply map_app. Qed.
+Lemma lp_text_app a b : lp_text (a ++ b) = lp_text a ++ lp_text b. Proof. apply flat_map_app. Qed.
+Lemma rp_text_app a b : rp_text (a ++ b) = rp_text b ++ rp_text a.
+Proof. induction a as [|f r IH]; [cbn; rewrite app_nil_r; reflexivity|]. cbn [app rp_text]. rewrite IH, app_assoc. reflexivity. Qed.
+Lemma lp_state_app cx a : forall ps b, lp_state cx ps (a ++ b) = lp_state cx (lp_state cx ps a) b.
+Proof. induction a as [|f r IH]; intros ps b; [reflexivity|]. cbn [app lp_state]. apply IH. Qed.
+
+(** the body of the innermost frame is well formed in front of that frame's closing part *)
+Lemma ok_plug_last cx path f ps body fh : ok_items cx ps (plug (path ++ [f]) body) fh = true ->
+  ok_items cx (lp_state cx ps (lefts (path ++ [f]))) body (hd_error (frame_tr f ++ closer_text f)) = true
+  /\ ws_ok (frame_tr f) = true.
+Proof.
+  rewrite plug_app. intros H. destruct (ok_plug cx path _ _ _ H) as (_ & _ & fh' & OKH).
+  cbn [plug] in OKH. destruct (ok_plug_frame cx _ f body fh' OKH) as (_ & _ & OKB & Wt).
+  rewrite lefts_app, lp_state_app. split; [exact OKB | exact Wt].
 Qed.
